@@ -90,7 +90,7 @@ def run(tier, seed):
     if not os.environ.get('VERIF_CUBES'):
         from ..conccheck import run_conc
         from .c03 import base as cbase
-        progs = ['CM', 'MC', 'AM', 'MA', 'CC', 'AC', 'CA', 'AA'] + (['MM', 'QM', 'MQ'] if tier != 'quick' else [])
+        progs = ['CM', 'MC', 'AM', 'MA', 'CC', 'AC', 'CA', 'AA', 'PM', 'MP', 'PC', 'XC'] + (['MM', 'QM', 'MQ', 'BM', 'MB', 'XM', 'MX', 'PP'] if tier != 'quick' else [])
         b = dict(cbase(tier), price=cs[0]['price'], positive_quantities=True)
         run.bounds['concurrent'] = {'threads': 2, 'operations_per_thread': 1, 'programs': progs, 'match_loop_unwind': b['match_unwind']}
         run_conc(run, progs, 'emir.checks.c15.conc_obls', timeout=300, base=b)
